@@ -1018,6 +1018,15 @@ async def run_workflow_scenario(entries, entries2, pats, owner, nsteps, mode) ->
             deleted, updated = paths1 - paths2, paths2 - paths1
             if mode == "rescan":
                 await asyncio.wait_for(rescan_nglobs(wf, _SilentReporter()), 60)
+            elif mode == "watchdir":
+                # as the watcher sees it: a removed directory arrives as ONE event (`DELETED_PARENT`) and
+                # `Watcher.record_change` asks the workflow which paths went with it
+                gone_dirs = sorted(d for d in deleted if d.endswith("/"))
+                top = [d for d in gone_dirs if not any(d != e and d.startswith(e) for e in gone_dirs)]
+                async with wf.db:
+                    derived = {q for d in top for q in wf.relevant_paths_under(d)}
+                    derived |= {q for q in deleted if not any(q.startswith(d) for d in top)}
+                    wf.process_nglob_changes(derived, updated)
             else:
                 async with wf.db:
                     wf.process_nglob_changes(deleted, updated)
@@ -1036,7 +1045,7 @@ async def run_workflow_scenario(entries, entries2, pats, owner, nsteps, mode) ->
                 cands = [ng for (p2, s2, ng) in stored.get(st.i, []) if p2 == pat and s2 == dict(subs)]
                 if mode == "rescan" and fresh.results != _scan_list(pat, subs, before).results:
                     changed_steps.add(si)
-                if mode == "watch" and any(ng.results != _scan_list(pat, subs, before).results for ng in cands):
+                if mode != "rescan" and any(ng.results != _scan_list(pat, subs, before).results for ng in cands):
                     changed_steps.add(si)  # the watcher makes a step pending iff what it stores changes
                 if not cands:
                     problems.append((SIG_RESCAN if mode == "rescan" else SIG_WATCH,
@@ -1049,7 +1058,7 @@ async def run_workflow_scenario(entries, entries2, pats, owner, nsteps, mode) ->
                 got_s, fresh_s = {str(p) for p in got.files()}, {str(p) for p in fresh.files()}
                 detail = dict(detail0, step=f"./work{si}.py", pattern=pat, subs=subs,
                               stored=show_plain(got.results), fresh=show_plain(fresh.results))
-                if mode == "watch":
+                if mode != "rescan":
                     # the watcher update decides by the regex alone: a path the regex over-accepts (known classes)
                     over = {q: classify_overaccept(fresh, pat, q) for q in got_s - fresh_s if q in paths2}
                     if not (fresh_s - got_s) and over and len(over) == len(got_s - fresh_s) and all(over.values()):
@@ -1130,8 +1139,8 @@ async def search(ctx):
         ctx.stats.count("oracle:workflow-witness-error:" + type(exc).__name__)
     # 2. workflow level: persisted registrations after a restart rescan and after a watcher update
     rw = ctx.rng("workflow")
-    for i in range(ctx.budget(240, 4000)):
-        mode = "rescan" if i % 2 == 0 else "watch"
+    for i in range(ctx.budget(330, 6000)):
+        mode = ("rescan", "watch", "watchdir")[i % 3]
         try:
             probs = await asyncio.wait_for(workflow_scenario(rw, exotic=(i % 7 == 6), mode=mode), 120)
         except asyncio.TimeoutError:
